@@ -1,0 +1,20 @@
+//go:build verif
+
+package parameter
+
+// Machine-checked contracts for /verif (govc). Comment-only: compiled only with -tags verif, adds no code.
+
+// C35 / C32 (safety half): decoding arbitrary bytes received from a MoQ peer - before any authentication -
+// never indexes or slices out of range, never converts a length into a negative size and never asserts a wrong
+// type, and every make() size is bounded by the protocol limit that guards it.
+
+//@ func (p *Parameters) Unmarshal
+//@   property C35, C32
+//@   safety alloc-bound, -ovf
+//@   loop 1 invariant total >= 0 && total + len(buf) == old(len(buf))
+//@   ensures [consumed-bytes-in-range] result1 == nil ==> 0 <= result0 && result0 <= len(buf)
+
+//@ func (t *AuthorizationToken) unmarshal
+//@   property C35, C32
+//@   safety alloc-bound, -ovf
+//@   ensures [consumed-bytes-in-range] result1 == nil ==> 0 <= result0 && result0 <= len(buf)
